@@ -289,7 +289,7 @@ def norm_trees(ctx, repo, cls):
                                 f"({'sqrt(x * ~x)' if name == 'norm' else 'x / norm(x)'})", fn)
 
 
-@rule("C11.python-siblings", props=["C11"], min_instances=10, mutants=[
+@rule("C11.python-siblings", props=["C11", "C19", "C07"], min_instances=10, mutants=[
     ("recorder norm without sqrt", ("taperecorder", "        normsq = self.normsq()\n        return normsq.sqrt()\n\n    def normalized(self):\n        \"\"\" Normalized version of this multivector. \"\"\"\n        return self / self.norm()\n",
                                     "        normsq = self.normsq()\n        return normsq\n\n    def normalized(self):\n        \"\"\" Normalized version of this multivector. \"\"\"\n        return self / self.norm()\n")),
     ("recorder pow off by one", ("taperecorder", "        for i in range(1, power):\n            res = res.gp(x)", "        for i in range(0, power):\n            res = res.gp(x)")),
@@ -448,7 +448,7 @@ def _parse_grade_expr(expr: str):
     return None
 
 
-@rule("C11.grade", props=["C11"], min_instances=4, mutants=[
+@rule("C11.grade", props=["C11", "C08", "C04"], min_instances=4, mutants=[
     ("keys in canonical order, indices in storage order", ("taperecorder", "        indices_keys = [(idx, k) for idx, k in enumerate(self.keys()) if k in basis_blades]\n        indices, keys = zip(*indices_keys) if indices_keys else (tuple(), tuple())",
                                                             "        keys = tuple(k for k in basis_blades if k in self.keys())\n        indices = tuple(idx for idx, k in enumerate(self.keys()) if k in basis_blades)")),
     ("grade selects the complement", ("taperecorder", "for idx, k in enumerate(self.keys()) if k in basis_blades]", "for idx, k in enumerate(self.keys()) if k not in basis_blades]")),
